@@ -10,11 +10,11 @@ def R : List (String × Regex) :=
   [("IF", [(⟨['?'], []⟩, .one)]), ("ELSE", [(⟨[':'], []⟩, .one)]),
    ("OR", [(⟨['|'], []⟩, .one), (⟨['|'], []⟩, .one)]), ("AND", [(⟨['&'], []⟩, .one), (⟨['&'], []⟩, .one)]),
    ("EQ", [(⟨['!', '='], []⟩, .one), (⟨['='], []⟩, .one)]), ("CMP", [(⟨['<', '>'], []⟩, .one), (⟨['='], []⟩, .opt)]),
-   ("ADDSUB", [(⟨['+', '-'], []⟩, .one)]), ("MULDIV", [(⟨['*', '/', '%'], []⟩, .one)]), ("NOT", [(⟨['!'], []⟩, .one)]),
+   ("ADDSUB", [(⟨['+', '-'], []⟩, .one)]), ("MULDIV", [(⟨['%', '*', '/'], []⟩, .one)]), ("NOT", [(⟨['!'], []⟩, .one)]),
    ("LPAR", [(⟨['('], []⟩, .one)]), ("RPAR", [(⟨[')'], []⟩, .one)]), ("VAR", [(⟨['n'], []⟩, .one)]),
    ("INT", [(⟨[], [('0', '9')]⟩, .plus)])]
 
-def Ig : List Regex := [[(⟨[' ', '\t'], []⟩, .plus)]]
+def Ig : List Regex := [[(⟨['\t', ' '], []⟩, .plus)]]
 
 theorem rules_eq : parseRules Generated.PluralGrammar.lexerRules = some R := by decide
 theorem ignore_eq : Generated.PluralGrammar.ignoreRules.mapM parseRegex = some Ig := by decide
@@ -81,7 +81,7 @@ theorem two_match {c c' : Char} {t : Tok} (h : twoCharTok c c' = some t) (r : Li
 
 def isBlank (c : Char) : Bool := c == ' ' || c == '\t'
 
-theorem blank_matches (c : Char) : (⟨[' ', '\t'], []⟩ : Atom).matches c = isBlank c := by
+theorem blank_matches (c : Char) : (⟨['\t', ' '], []⟩ : Atom).matches c = isBlank c := by
   by_cases h1 : c = ' '
   · subst h1; decide
   · by_cases h2 : c = '\t'
@@ -93,7 +93,7 @@ theorem digit_matches (c : Char) : (⟨[], [('0', '9')]⟩ : Atom).matches c = i
 
 theorem ignore_match (s : List Char) :
     ignoreMatch Ig s = if runLen isBlank s = 0 then none else some (runLen isBlank s) := by
-  have hf : (⟨[' ', '\t'], []⟩ : Atom).matches = isBlank := funext blank_matches
+  have hf : (⟨['\t', ' '], []⟩ : Atom).matches = isBlank := funext blank_matches
   simp only [Ig, ignoreMatch, matchRe, plusLoop_run, hf]
   by_cases h0 : runLen isBlank s = 0 <;> simp [h0]
 
@@ -172,7 +172,7 @@ theorem digit_match {c : Char} (hd : isDigit c = true) (rest : List Char) :
   simp only [R, firstMatch]
   rw [one1 ['?'] _ (by simp [n1]), one1 [':'] _ (by simp [n2]), one1 ['|'] _ (by simp [n14]), one1 ['&'] _ (by simp [n15]),
     one1 ['!', '='] _ (by simp [n10, n16]), one1 ['<', '>'] _ (by simp [n3, n4]), one1 ['+', '-'] _ (by simp [n5, n6]),
-    one1 ['*', '/', '%'] _ (by simp [n7, n8, n9]), one1 ['!'] _ (by simp [n10]), one1 ['('] _ (by simp [n11]),
+    one1 ['%', '*', '/'] _ (by simp [n7, n8, n9]), one1 ['!'] _ (by simp [n10]), one1 ['('] _ (by simp [n11]),
     one1 [')'] _ (by simp [n12]), one1 ['n'] _ (by simp [n13]), hint]
 
 /-! ## the hand-written lexer, run by run -/
